@@ -36,6 +36,10 @@ type prov struct {
 	n    int
 }
 
+// optionalDeps marks every declared dependency optional (a graph edge is an
+// edge whether or not the consumer tolerates its absence).
+var optionalDeps bool
+
 func (p *prov) GetType() reflect.Type { return pool[p.id].t }
 func (p *prov) GetKey() any           { return pool[p.id].key }
 func (p *prov) GetGroup() string      { return pool[p.id].group }
@@ -43,7 +47,7 @@ func (p *prov) GetDependencies() []*reflection.Dependency {
 	var d []*reflection.Dependency
 	for j := 0; j < p.n; j++ {
 		if p.deps&(1<<j) != 0 {
-			d = append(d, &reflection.Dependency{Type: pool[j].t, Key: pool[j].key, Group: pool[j].group})
+			d = append(d, &reflection.Dependency{Type: pool[j].t, Key: pool[j].key, Group: pool[j].group, Optional: optionalDeps})
 		}
 	}
 	return d
@@ -198,6 +202,7 @@ func asCycleErr(err error) *graph.CircularDependencyError {
 // AddProviderDeferred x N + DetectCycles.
 func H_C05a_Deferred() {
 	n := vrt.Param("N", 3)
+	optionalDeps = vrt.Pick("optional", 0, 1) == 1
 	mask := vrt.Pick("mask", 0, 1<<(n*n)-1)
 	m := &model{n: n}
 	g := graph.NewDependencyGraph()
@@ -283,6 +288,7 @@ func H_C06a_Topo() {
 	n := vrt.Param("N", 3)
 	mask := vrt.Pick("mask", 0, 1<<(n*n)-1)
 	immediate := vrt.Bool("immediate")
+	optionalDeps = vrt.Pick("optional", 0, 1) == 1
 	out := edgesFromMask(mask, n)
 	m := &model{n: n}
 	for i := 0; i < n; i++ {
